@@ -42,13 +42,12 @@ def obsResOfJson (j : Json) : Except String ObsRes := do
   else
     let e ← j.getObjVal? "err"
     -- `dest` is a Val whose JSON for None is null: wrapped as {"v": Val} | null
-    let dest ← match e.getObjVal? "dest" with
-      | .ok .null => pure none
-      | .ok d => do pure (some (← valOfJson (← d.getObjVal? "v")))
-      | .error _ => pure none
+    let dest ← match ← e.getObjVal? "dest" with
+      | .null => pure none
+      | d => do pure (some (← valOfJson (← d.getObjVal? "v")))
     return .err (← e.getObjValAs? String "cls")
-      (← optOf strOfJson ((e.getObjVal? "inner").toOption.getD .null))
-      (← optOf natOfJson ((e.getObjVal? "idx").toOption.getD .null))
+      (← optOf strOfJson (← e.getObjVal? "inner"))
+      (← optOf natOfJson (← e.getObjVal? "idx"))
       dest
       (← e.getObjValAs? Bool "pae") (← e.getObjValAs? Bool "passign")
       (← e.getObjValAs? Bool "pdelete") (← e.getObjValAs? Bool "glom")
@@ -70,7 +69,8 @@ partial def nestToJson : Nest → Json
 
 def readObsOfJson (j : Json) : Except String ReadObs := do
   match j with
-  | .str _ => return .notRun
+  | .str "notrun" => return .notRun
+  | .str s => throw s!"bad read observation {s}"
   | _ =>
     if let .ok n := j.getObjVal? "ok" then return .ok (← nestOfJson n)
     else return .err (← obsResOfJson j)
@@ -109,14 +109,17 @@ def missingOfJson (j : Json) : Except String Missing :=
 
 def valSpecOfJson (j : Json) : Except String UVal := do
   if let .ok v := j.getObjVal? "lit" then return .lit (← valOfJson v)
-  else return .path (← listOfJson stepOfJson (← j.getObjVal? "t"))
+  else if let .ok v := j.getObjVal? "val" then return .vs (.val (← valOfJson v))       -- `Val(x)`
+  else if let .ok t := j.getObjVal? "text" then                                         -- `Spec('a.b')`
+    return .vs (.path (C01.stepsOfParts (C01.partsOfText (← strOfJson t).toList)))
+  else return .vs (.path (← listOfJson stepOfJson (← j.getObjVal? "t")))                 -- a T-expression / `Spec(T…)`
 
 def reOfJson (j : Json) : Except String (Option Re) :=
   match j with
   | .null => pure none
   | _ => do
     return some { at_ := ← j.getObjValAs? Nat "at", target2 := ← valOfJson (← j.getObjVal? "target2"),
-                  threads := (j.getObjValAs? Bool "threads").toOption.getD false }
+                  threads := ← j.getObjValAs? Bool "threads" }
 
 def flagsOfJson (j : Json) : Except String (List (String × List String)) :=
   listOfJson (pairOfJson strOfJson (listOfJson strOfJson)) j
@@ -130,6 +133,7 @@ structure Common where
   steps : List Step
   hasScope : Bool      -- the heap has a cell standing for the scope frame
   hasUreg : Bool := false   -- the case made user registrations
+  refEnv : MEnv              -- the environment of the prescription (registry-independent tables for the builtin kinds)
 
 def commonOfJson (j : Json) : Except String Common := do
   let classes ← classTableOfJson (← j.getObjVal? "classes")
@@ -137,20 +141,17 @@ def commonOfJson (j : Json) : Except String Common := do
   let heap ← heapOfJson (← j.getObjVal? "heap")
   let target ← valOfJson (← j.getObjVal? "target")
   let root ← j.getObjValAs? String "root"
-  let sref ← match j.getObjVal? "scope" with
-    | .ok .null => pure Val.none
-    | .ok v => valOfJson v
-    | .error _ => pure Val.none
+  let sref ← match ← j.getObjVal? "scope" with
+    | .null => pure Val.none
+    | v => valOfJson v
   let steps ← stepsOfSpelling (← j.getObjVal? "spelling")
-  let regOf := fun (u : Json) (k : String) =>
-    (match u.getObjVal? k with
-     | .ok t => listOfJson (pairOfJson strOfJson strOfJson) t
-     | .error _ => pure [] : Except String (List (String × String)))
-  let ur : UReg ← (match j.getObjVal? "ureg" with
-    | .ok .null => pure {}
-    | .ok u => do pure { get := ← regOf u "get", assign := ← regOf u "assign", delete := ← regOf u "delete" }
-    | .error _ => pure {} : Except String UReg)
-  return { env := genEnv classes flags ur, heap, target, sroot := root == "S", sref, steps,
+  let regOf := fun (u : Json) (k : String) => do
+    listOfJson (pairOfJson strOfJson strOfJson) (← u.getObjVal? k)
+  let ur : UReg ← (match ← j.getObjVal? "ureg" with
+    | .null => pure {}
+    | u => do pure { get := ← regOf u "get", assign := ← regOf u "assign", delete := ← regOf u "delete" }
+    : Except String UReg)
+  return { env := genEnv classes flags ur, refEnv := (genEnv classes flags ur).natural ur.assign ur.delete, heap, target, sroot := root == "S", sref, steps,
            hasScope := sref != Val.none,
            hasUreg := !(ur.get.isEmpty && ur.assign.isEmpty && ur.delete.isEmpty) }
 
@@ -172,7 +173,7 @@ def runRe (c : Common) (uv : UVal) (kind : String) (re : Re) (implObs : Obs) : E
   let out := if re.threads then assignSeq c.env kind fuel re.target2 c.heap c.target c.steps uv
     else assignRe c.env kind fuel re.at_ re.target2 c.heap c.target c.steps uv
   let modelObs := observe c.env out
-  let ref := refAssignRe c.env fuel c.heap c.target c.steps uv kind re
+  let ref := refAssignRe c.refEnv fuel c.heap c.target c.steps uv kind re
   if (match ref with | .unsupported => true | _ => false) ||
       (match out.2 with | .error .unmodelled => true | _ => false) then
     return Json.mkObj [("skip", true), ("why", "overlapping evaluations outside the modelled domain")]
@@ -180,8 +181,8 @@ def runRe (c : Common) (uv : UVal) (kind : String) (re : Re) (implObs : Obs) : E
   -- on failure the garbage of the two evaluations is not an observation
   let agree := modelObs.res == implObs.res && modelObs.calls == implObs.calls &&
     modelObs.hidden == implObs.hidden && canon n modelObs.heap == canon n implObs.heap
-  let holds := checkC11Re c.env fuel c.heap c.target c.steps uv kind re implObs
-  let modelHolds := checkC11Re c.env fuel c.heap c.target c.steps uv kind re modelObs
+  let holds := checkC11Re c.refEnv fuel c.heap c.target c.steps uv kind re implObs
+  let modelHolds := checkC11Re c.refEnv fuel c.heap c.target c.steps uv kind re modelObs
   let branch := (if re.threads then "threads:" else s!"reenter@{re.at_}:") ++
     (match ref with | .ok _ (some k) => s!"ok calls={k}" | .ok _ none => "ok (other evaluation raised)"
                     | .fail _ => "fail" | .unsupported => "unsupported") ++ "→" ++ resTag modelObs.res
@@ -193,10 +194,15 @@ def runRe (c : Common) (uv : UVal) (kind : String) (re : Re) (implObs : Obs) : E
 def run (j : Json) : Except String Json := do
   let c ← commonOfJson j
   let uv ← valSpecOfJson (← j.getObjVal? "value")
-  let missing ← missingOfJson ((j.getObjVal? "missing").toOption.getD .null)
+  let missing ← missingOfJson (← j.getObjVal? "missing")
   let implJ ← j.getObjVal? "impl"
   let implObs0 ← obsOfJson implJ
-  let re ← reOfJson ((j.getObjVal? "reenter").toOption.getD .null)
+  let re ← reOfJson (← j.getObjVal? "reenter")
+  let tleafSafe0 := c.heap.all (fun o => match o with
+    | .inst cl st => !c.env.flag cl "tleaf" || intSafe st
+    | _ => true)
+  if re.isSome && !(intSafe c.steps && (match uv with | .vs (.path s) => intSafe s | .vs _ => true | .lit _ => tleafSafe0)) then
+    return Json.mkObj [("skip", true), ("why", "overlapping evaluations with a segment outside the model's int()")]
   if let some r := re then
     match missing with
     | .factory kind => return ← runRe c uv kind r implObs0
@@ -205,16 +211,39 @@ def run (j : Json) : Except String Json := do
   let fuel := argFuel c.heap
   let n := c.heap.length
   -- chain mode: a later step of the same chain reads a path back
-  let rd : Option (List Step) ← (match j.getObjVal? "readback" with
-    | .ok .null => pure none
-    | .ok r => do pure (some (← stepsOfSpelling (← r.getObjVal? "spelling")))
-    | .error _ => pure none : Except String (Option (List Step)))
-  let implRead : Option ReadObs ← (match implJ.getObjVal? "read" with
-    | .ok .null => pure none
-    | .ok r => do pure (some (← readObsOfJson r))
-    | .error _ => pure none : Except String (Option ReadObs))
-  let frameSeen := (implJ.getObjValAs? Bool "frame_seen").toOption.getD true
-  let scopeKept := (implJ.getObjValAs? Bool "scope_kept").toOption.getD true
+  let rd : Option (List Step) ← (match ← j.getObjVal? "readback" with
+    | .null => pure none
+    | r => do pure (some (← stepsOfSpelling (← r.getObjVal? "spelling")))
+    : Except String (Option (List Step)))
+  let implRead : Option ReadObs ← (match ← implJ.getObjVal? "read" with
+    | .null => pure none
+    | r => do pure (some (← readObsOfJson r))
+    : Except String (Option ReadObs))
+  -- the objects the implementation wrote to, in order (logging stand-ins; null: not observed)
+  let implWlog : Option (List Nat) ← (match ← implJ.getObjVal? "wlog" with
+    | .null => pure none
+    | w => do pure (some (← listOfJson natOfJson w))
+    : Except String (Option (List Nat)))
+  let frameSeen ← implJ.getObjValAs? Bool "frame_seen"
+  let scopeKept ← implJ.getObjValAs? Bool "scope_kept"
+  -- segments on which CPython's int() is not the kernel's (whitespace, underscores, non-ASCII digits,
+  -- floats): outside the model.  What needs no int() is still checked: the same object on success;
+  -- on an error through a wildcard-free path every pre-existing cell as it was.
+  let tleafSafe := c.heap.all (fun o => match o with
+    | .inst cl st => !c.env.flag cl "tleaf" || intSafe st
+    | _ => true)
+  let allSafe := intSafe c.steps && (match uv with | .vs (.path s) => intSafe s | .vs _ => true | .lit _ => tleafSafe) &&
+    (match rd with | some rs => intSafe rs | none => true)
+  let hasSS := c.steps.any (fun st => st.1 == "X")
+  if !allSafe || hasSS then
+    let weak := match implObs0.res with
+      | .ok v => v == c.target
+      | .err .. => hasStar c.steps || implObs0.heap.take n == c.heap
+    return Json.mkObj [("agree", true), ("holds", weak && scopeKept), ("model_holds", true), ("wf", WF c.env),
+      ("covered", false), ("model", Json.null), ("why", if weak then "" else "same object / atomicity"),
+      ("ref", if hasSS then "starstar" else "int-unsafe"),
+      ("branch", if hasSS then "`**` destination (enumeration is C14's): same object only"
+                 else "int() outside the modelled subset: same object / atomicity only")]
   -- `Assign.__init__`: the path it keeps (first step of an S-rooted path re-spelled per the extracted table)
   let kept := initPath (genSFirst "Assign") c.sroot c.steps
   let (out, rdOut) := match rd with
@@ -222,10 +251,30 @@ def run (j : Json) : Except String Json := do
     | none => (assignU c.env c.sroot c.sref missing fuel c.heap c.target kept uv, none)
   let modelObs := observe c.env out
   let modelRead := observeRead c.env rdOut
+  -- write order: what the model's event log says, and the property's two order clauses evaluated on
+  -- the implementation's log: a wildcard-free assignment that succeeds writes a pre-existing object at
+  -- most once and LAST (everything before concerns objects created during the call); one that fails
+  -- never writes a pre-existing object, not even transiently
+  let renW := fun (hp : Heap) (l : List Nat) =>
+    l.map (fun a => match renameVal n (newOrder n hp []) (.ref a) with | .ref b => b | _ => a)
+  -- (only plain dict / list / Obj objects have logging stand-ins)
+  let isLogged := fun (a : Nat) => match modelObs.heap[a]? with
+    | some o => o.cls == "dict" || o.cls == "list" || o.cls == "Obj"
+    | none => false
+  let modelWlog := renW modelObs.heap (out.1.log.filterMap (fun ev =>
+    match ev with | .write a => if isLogged a then some a else none | _ => none))
+  let wlogAgree := match implWlog with
+    | some l => renW implObs0.heap l == modelWlog
+    | none => true
+  let wlogHolds := match implWlog with
+    | some l => hasStar c.steps || (match implObs0.res with
+        | .ok _ => l.dropLast.all (fun a => n ≤ a)
+        | .err .. => l.all (fun a => n ≤ a))
+    | none => true
   -- the prescription reads an S-rooted path the way such a path is evaluated: a first step spelled
   -- `S.name` / `Path(S, name)` means the scope variable (`_s_first_magic`) — also as a destination
   let refSteps := readSteps c.sroot c.steps
-  let ref := refAssignU c.env fuel c.heap c.target root refSteps uv missing
+  let ref := refAssignU c.refEnv fuel c.heap c.target root refSteps uv missing
   if ref == .unsupported || (match out.2 with | .error .unmodelled => true | _ => false) ||
       (match rdOut with | some (.error .unmodelled) => true | _ => false) then
     return Json.mkObj [("skip", true), ("why", "path outside the modelled domain (`**` / wildcard value)")]
@@ -241,26 +290,32 @@ def run (j : Json) : Except String Json := do
     | none, none => true
     | _, _ => false
   let readHolds := match rd, implRead with
-    | some rs, some r => checkReadU c.env fuel c.heap c.target root refSteps uv missing (readSteps c.sroot rs) implObs.heap r
+    | some rs, some r => checkReadU c.refEnv fuel c.heap c.target root refSteps uv missing (readSteps c.sroot rs) implObs.heap r
     | none, none => true
     | _, _ => false
   -- the garbage a failed call leaves (factory objects, rebuilt containers) is not an observation
-  let agree := canonObs n (maskObs modelObs) == canonObs n (maskObs implObsA) && readAgree
-  let holds := checkC11U c.env fuel c.heap c.target root refSteps uv missing implObs unobs && readHolds && scopeKept
-  let modelHolds := checkC11U c.env fuel c.heap c.target root refSteps uv missing modelObs &&
+  let agree := canonObs n (maskObs modelObs) == canonObs n (maskObs implObsA) && readAgree && wlogAgree
+  let errHolds := checkErrU c.refEnv fuel c.heap c.target root refSteps uv missing implObs
+  let holds := checkC11U c.refEnv fuel c.heap c.target root refSteps uv missing implObs unobs && readHolds &&
+    scopeKept && errHolds && wlogHolds
+  let modelHolds := checkC11U c.refEnv fuel c.heap c.target root refSteps uv missing modelObs &&
+    checkErrU c.refEnv fuel c.heap c.target root refSteps uv missing modelObs &&
     (match rd with
-     | some rs => checkReadU c.env fuel c.heap c.target root refSteps uv missing (readSteps c.sroot rs) modelObs.heap modelRead
+     | some rs => checkReadU c.refEnv fuel c.heap c.target root refSteps uv missing (readSteps c.sroot rs) modelObs.heap modelRead
      | none => true)
   let star := hasStar c.steps
   let (cov, covStar, lit) := match uv with
-    | .path s =>
-      (covered c.env c.heap c.target c.sroot c.steps (.path s) missing,
-       star && WF c.env && classesOK c.env && noScope c.env && wfStar c.steps && valWf (.path s) &&
-         !valUnsupported c.heap (.path s) && (match missing with | .none => true | _ => out.1.calls == 0), false)
+    | .vs s =>
+      (covered c.env c.heap c.target c.sroot c.steps s missing,
+       -- `c11_star` / `c11_star_model_checks`: T-rooted, `*` only, the matches of the parent path exist, the value is defined
+       star && !c.sroot && WF c.env && classesOK c.env && noScope c.env && wfStar c.steps && valWf s &&
+         !valUnsupported c.heap s && (match c.steps.getLast? with | some (lop, _) => finalOk lop | none => false) &&
+         (match matchesOf c.env c.heap c.steps.dropLast 0 c.target with | .ok _ => true | _ => false) &&
+         (refVal c.env c.heap c.target s).isSome, false)
     | .lit v =>
       (coveredLit c.env fuel c.heap c.target c.steps v missing,
-       star && WF c.env && classesOK c.env && noScope c.env && wfStar c.steps && tleafsWf c.env c.heap &&
-         (match missing with | .none => true | _ => out.1.calls == 0), out.1.heap.length > n && out.1.calls == 0 || rebuilds c.heap v)
+       -- (no theorem speaks about a wildcard destination together with a rebuilt literal: not tagged)
+       false, out.1.heap.length > n && out.1.calls == 0 || rebuilds c.heap v)
   let rdTag := match rd with
     | none => ""
     | some _ => (match modelRead with
@@ -273,6 +328,8 @@ def run (j : Json) : Except String Json := do
     ("wf", WF c.env), ("covered", cov || covStar), ("model", obsToJson (canonObs n modelObs)),
     ("model_read", readObsToJson (canonRead n modelObs.heap modelRead)),
     ("why", if !scopeKept then "the mapping handed to glom(scope=…) was changed"
+            else if !wlogHolds then "write order: a pre-existing object was written before the last write (or at all, by a call that failed)"
+            else if !errHolds then "the exception is not the one the property's reading prescribes"
             else if !readHolds then "the read-back step does not see what the plain-Python assignment leaves"
             else ""),
     ("ref", match ref with
